@@ -54,7 +54,8 @@ def run(ctx, F):
     adds = [(bi, tm) for bi, tm in b.calls() if (mir.callee_name(tm) or "").endswith("CssBuf>::add_str")]
     val_pat = ("call", "<str>::replace", [("call", "css::value::Value>::format", [("param", 1, [".value"]), ("call", "CssBuf>::format", [("param", 2)])]), ("const", "\n"), ("const", " ")])
     terms = [sym.strip_transparent(S.operand(b, tm["args"][1])) for bi, tm in adds]
-    if any(sym.match(x, val_pat) for x in terms):
+    rendered = [x for x in terms if "Value>::format" in repr(x)]
+    if rendered and all(sym.match(x, val_pat) for x in rendered):
         ctx.ok("F4-declaration-text", "Property::write value text", {"term": [sym.show(x) for x in terms if sym.match(x, val_pat)][0]})
     else:
         ctx.fail("F4-declaration-text", "Property::write value text", f"Property::write emits {[sym.show(x)[:120] for x in terms]}; expected self.value.format(buf.format()).to_string().replace('\\n', \" \")", where=b.where())
